@@ -2,20 +2,22 @@ package main
 
 import (
 	"fmt"
-	"strings"
 
-	"github.com/verily-src/fhirpath-go/fhirpath/verifh/core"
-	"github.com/verily-src/fhirpath-go/fhirpath/verifh/lib"
+	dtpb "github.com/google/fhir/go/proto/google/fhir/proto/r4/core/datatypes_go_proto"
+	"github.com/verily-src/fhirpath-go/internal/element/reference"
+	"github.com/verily-src/fhirpath-go/internal/fhir"
 )
 
 func main() {
-	big := "1" + strings.Repeat("0", 400) + ".0"
-	for _, src := range []string{"(1 '').abs()", "(1 '') + (1 '')", big + ".sqrt()", big + ".log(2)", big + ".ln()", big + ".exp()", big + ".power(2)", "2.power(" + big + ")", big + ".round(2)", "16.log(" + big + ")", big + ".truncate()", "(1 '').toString()", "(1 '') = (1 '')", "(1 '') < (2 '')", "1 '' * 2"} {
-		r := lib.Run(src, nil, nil)
-		s := src
-		if len(s) > 40 {
-			s = s[:20] + "..." + s[len(s)-15:]
-		}
-		fmt.Println(s, "=>", core.Short(r.String(), 160))
+	for _, u := range []string{"urn:uuid:00000000-0000-0000-0000-000001000001", "urn:uuid:5a17b7c2-e01c-4bc7-b973-31d4156b11d7", "urn:oid:1.2.000001000002"} {
+		ref := &dtpb.Reference{Type: fhir.URI("Patient"), Reference: &dtpb.Reference_Uri{Uri: fhir.String(u)}}
+		l, err := reference.LiteralInfoOf(ref)
+		t, ok := l.Type()
+		fmt.Println(u, "Of:", t, ok, err)
+		l2, err := reference.LiteralInfoFromURI(u)
+		t2, ok2 := l2.Type()
+		fmt.Println("   FromURI:", t2, ok2, err)
+		l3, err := reference.LiteralInfoOf(reference.Weak("Patient", u))
+		fmt.Println("   weak:", l3, err)
 	}
 }
